@@ -286,8 +286,9 @@ class RefRun:
 
 
 # ----------------------------------------------------------------------------- torch builder
-def build_torch(prog, leaf_vals, dtype="float64"):
-    """Builds the real autograd graph. Returns the list of all values (leaves first)."""
+def build_torch(prog, leaf_vals, dtype="float64", layout="c"):
+    """Builds the real autograd graph. Returns the list of all values (leaves first).
+    layout="f": leaves with >= 2 dimensions are dense but NON-contiguous (column-major memory), same values."""
     import torch
 
     dt = getattr(torch, dtype)
@@ -295,6 +296,9 @@ def build_torch(prog, leaf_vals, dtype="float64"):
     vals = []
     for i in range(t.nleaves):
         x = torch.tensor(np.asarray(leaf_vals[i], dtype=np.float64).reshape(t.shapes[i]), dtype=dt)
+        if layout == "f" and x.dim() >= 2:
+            perm = list(range(x.dim()))[::-1]
+            x = x.permute(perm).contiguous().permute(perm)  # same values and shape, reversed strides
         x.requires_grad_(t.req[i])
         vals.append(x)
     for op, args in prog["ops"]:
